@@ -114,6 +114,10 @@ func (o *Options) populateGlobals(c *cli.Context) error {
 	if !c.IsSet("no-database") && (c.IsSet("database") || o.GlobalConfig.DbFileName == "") {
 		o.GlobalConfig.DbFileName = c.String("database")
 	}
+	if c.Bool("no-database") {
+		// behave as an empty database, whatever file name is configured
+		o.GlobalConfig.DbFileName = os.DevNull
+	}
 
 	if c.IsSet("logfile") || o.GlobalConfig.LogFileName == "" {
 		o.GlobalConfig.LogFileName = c.String("logfile")
